@@ -77,7 +77,7 @@ def main():
             sh("git -C /repo checkout -- .")
         # restore evidence of the unchanged tree for the touched checks
         for c in checks:
-            sh("./check %s --tier quick" % c, cwd="/verif", timeout=3600)
+            sh("git checkout -- evidence/%s.json" % c, cwd="/verif")
     d = os.path.join("/verif/seeded", name)
     os.makedirs(d, exist_ok=True)
     shutil.copy(patch, os.path.join(d, "patch.diff"))
